@@ -1,0 +1,35 @@
+//! Hooks for property C30 (mmap chunk states): a private `ChunkStateMmapper`, the `Mmapper`
+//! trait, and read-only accessors of the recorded chunk state and of the slab geometry of the
+//! two-level storage.  Re-exports and thin wrappers only.
+
+use crate::util::Address;
+
+pub use crate::util::heap::layout::Mmapper;
+pub use crate::util::heap::layout::VerifChunkStateMmapper as ChunkStateMmapper;
+
+/// `MapState` discriminants as returned by [`chunk_state`].
+pub const UNMAPPED: u8 = 0;
+pub const QUARANTINED: u8 = 1;
+pub const MAPPED: u8 = 2;
+
+/// A fresh, private mmapper (all chunks logically Unmapped, no slab allocated).
+pub fn new_chunk_state_mmapper() -> ChunkStateMmapper {
+    ChunkStateMmapper::new()
+}
+
+/// The recorded state of the chunk starting at `chunk` (must be chunk-aligned).
+pub fn chunk_state(mmapper: &ChunkStateMmapper, chunk: Address) -> u8 {
+    mmapper.verif_get_state(chunk)
+}
+
+/// Log2 of the number of bytes governed by one slab of the two-level storage.
+#[cfg(target_pointer_width = "64")]
+pub fn log_slab_bytes() -> usize {
+    ChunkStateMmapper::verif_log_slab_bytes()
+}
+
+/// Whether the slab governing `addr` has been allocated.
+#[cfg(target_pointer_width = "64")]
+pub fn slab_allocated(mmapper: &ChunkStateMmapper, addr: Address) -> bool {
+    mmapper.verif_slab_allocated(addr)
+}
